@@ -43,11 +43,11 @@ ISAS = {
 #   kinds: ord, jmp, jcc, call, ijmp, icall, ret, label, bytes, symop
 VOCAB = {
     "x64-att": {"ord": ("pushq %rax", "push"), "ord2": ("nop", "nop"), "jmp": ("jmp {t}", "jmp"), "jcc": ("je {t}", "je"), "call": ("call {t}", "call"),
-                "ijmp": ("jmp *%rax", "jmp"), "icall": ("call *%rax", "call"), "ret": ("ret", "ret"), "symop": ("movq {t}(%rip), %rax", "mov")},
+                "ijmp": ("jmp *%rax", "jmp"), "icall": ("call *%rax", "call"), "ret": ("ret", "ret"), "symop": ("movq {t}(%rip), %rax", "mov"), "symopimm": ("addl $1, {t}(%rip)", "add")},
     "x64-intel": {"ord": ("push rax", "push"), "ord2": ("nop", "nop"), "jmp": ("jmp {t}", "jmp"), "jcc": ("je {t}", "je"), "call": ("call {t}", "call"),
-                  "ijmp": ("jmp rax", "jmp"), "icall": ("call rax", "call"), "ret": ("ret", "ret"), "symop": ("mov rax, [rip + {t}]", "mov")},
+                  "ijmp": ("jmp rax", "jmp"), "icall": ("call rax", "call"), "ret": ("ret", "ret"), "symop": ("mov rax, [rip + {t}]", "mov"), "symopimm": ("add dword ptr [rip + {t}], 1", "add")},
     "ia32": {"ord": ("pushl %eax", "push"), "ord2": ("nop", "nop"), "jmp": ("jmp {t}", "jmp"), "jcc": ("je {t}", "je"), "call": ("call {t}", "call"),
-             "ijmp": ("jmp *%eax", "jmp"), "icall": ("call *%eax", "call"), "ret": ("ret", "ret"), "symop": ("movl {t}, %eax", "mov")},
+             "ijmp": ("jmp *%eax", "jmp"), "icall": ("call *%eax", "call"), "ret": ("ret", "ret"), "symop": ("movl {t}, %eax", "mov"), "symopimm": ("addl $1, {t}", "add")},
     "arm64": {"ord": ("add x0, x0, #1", "add"), "ord2": ("nop", "nop"), "jmp": ("b {t}", "b"), "jcc": ("b.eq {t}", "b.eq"), "call": ("bl {t}", "bl"),
               "ijmp": ("br x1", "br"), "icall": ("blr x1", "blr"), "ret": ("ret", "ret"), "symop": ("adrp x0, {t}", "adrp")},
     "mips32": {"ord": ("addiu $t0, $t0, 1", "addiu"), "ord2": ("nop", "nop"), "jmp": ("j {t}", "j"), "call": ("jal {t}", "jal"),
@@ -65,7 +65,7 @@ def mk_module(isa, ff):
 
 def programs(isa_key, maxlen, rnd, limit):
     v = VOCAB[isa_key]
-    kinds = [k for k in ("ord", "ord2", "jmp", "jcc", "call", "ijmp", "icall", "ret", "symop", "label", "dlabel", "bytes") if k in v or k in ("label", "dlabel", "bytes")]
+    kinds = [k for k in ("ord", "ord2", "jmp", "jcc", "call", "ijmp", "icall", "ret", "symop", "symopimm", "label", "dlabel", "bytes") if k in v or k in ("label", "dlabel", "bytes")]
     out = []
     for n in range(1, maxlen + 1):
         for combo in itertools.product(kinds, repeat=n):
@@ -217,7 +217,7 @@ def check_program(isa_key, combo, target_choice):
                 want_t = syms["Lab"].referent if t == "Lab" else modsym.referent
                 if not tg or tg[0] is not want_t:
                     pr.append(("C12/direct-edge-leads-to-the-block-of-its-label", "%s %s at %d -> %r" % (k, t, o, tg)))
-        if k in ("jmp", "jcc", "call", "symop") and t is not None:
+        if k in ("jmp", "jcc", "call", "symop", "symopimm") and t is not None:
             exprs = {eo: e for eo, e in sec.symbolic_expressions.items() if o <= eo < o + size}
             if len(exprs) != 1:
                 pr.append(("C12/one-expression-per-symbolic-operand", "%s %s at %d: %d expressions" % (k, t, o, len(exprs))))
@@ -228,6 +228,19 @@ def check_program(isa_key, combo, target_choice):
                     pr.append(("C12/expression-has-the-right-symbol-and-addend", "%s %s at %d: %r" % (k, t, o, e)))
                 if eo not in sec.symbolic_expression_sizes or not (0 < sec.symbolic_expression_sizes[eo] <= size):
                     pr.append(("C12/expression-size-recorded", "%s at %d: size %s" % (k, eo, sec.symbolic_expression_sizes.get(eo))))
+    # a code block that ends without a control transfer (its text goes on under a label, or an instruction follows a terminator-less
+    # boundary) runs into the next block: exactly one fallthrough edge to the block that physically follows it
+    for bi_, b in enumerate(blocks):
+        if not isinstance(b, gtirb.CodeBlock) or not b.size or bi_ + 1 >= len(blocks):
+            continue
+        inside = [(k, o) for (k, o, size, _, _) in layout if size and b.offset <= o < b.offset + b.size]
+        if not inside or inside[-1][0] in ("jmp", "jcc", "call", "ijmp", "icall", "ret"):
+            continue
+        nb = blocks[bi_ + 1]
+        out = [(e.label.type.name, e.target) for e in res.cfg.out_edges(b)]
+        if out != [("Fallthrough", nb)]:
+            pr.append(("C12/block-without-a-terminator-falls-through-to-the-next-block", "block %d+%d (ends with '%s') has out-edges %s" % (
+                b.offset, b.size, inside[-1][0], [(t, getattr(x, "offset", "proxy")) for t, x in out])))
     # data conversion: a block made only of .byte runs that nothing jumps to and that is not first-in-an-executable-section-and-reachable
     for b in blocks:
         kinds_in = [k for (k, o, size, _, _) in layout if size and b.offset <= o < b.offset + b.size]
@@ -252,12 +265,12 @@ def c12_bounded(tier, seed):
         br.clauses = ["C12/bytes-are-the-instructions-written", "C12/blocks-tile-the-data-in-order", "C12/at-most-one-empty-block-at-the-end",
                       "C12/control-transfer-ends-its-block-with-its-edges", "C12/indirect-transfer-targets-a-registered-proxy",
                       "C12/direct-edge-leads-to-the-block-of-its-label", "C12/label-is-a-symbol-on-the-block-starting-at-its-position",
-                      "C12/unreferenced-byte-only-blocks-are-data", "C12/blocks-with-instructions-are-code", "C12/one-expression-per-symbolic-operand",
+                      "C12/unreferenced-byte-only-blocks-are-data", "C12/blocks-with-instructions-are-code", "C12/block-without-a-terminator-falls-through-to-the-next-block", "C12/one-expression-per-symbolic-operand",
                       "C12/expression-has-the-right-symbol-and-addend", "C12/expression-has-the-right-attributes", "C12/expression-size-recorded", "C12/supported-text-assembles"]
         distinct = set()
         for isa_key in ISAS:
             for combo in programs(isa_key, maxlen, rnd, limit):
-                for tc in (("label", "sym") if ("label" in combo or "dlabel" in combo) and any(k in combo for k in ("jmp", "jcc", "call", "symop")) else ("sym",)):
+                for tc in (("label", "sym") if ("label" in combo or "dlabel" in combo) and any(k in combo for k in ("jmp", "jcc", "call", "symop", "symopimm")) else ("sym",)):
                     br.cases += 1
                     distinct.add((isa_key, combo, tc))
                     try:
@@ -456,7 +469,25 @@ def c13_bounded(tier, seed):
         br.cases += 1
         if not all(e.symbol is modsym for e in res.text_section.symbolic_expressions.values()) or any(s.name == "modsym" for s in res.symbols):
             br.failures.append({"clause": "C13/existing-name-binds-to-the-module-symbol-object", "witness": {}, "detail": "a duplicate of the module's symbol was created"})
-        br.nontrivial = len(distinct) + 6
+        # names that LOOK temporary (.L prefix) but belong to the module: they must still bind to the module's symbol object, with and
+        # without a temp_symbol_suffix, and defining one of them again is a MultipleDefinitionsError
+        for suffix in (None, "_9"):
+            ir, m, modsym = mk_module(isa, ff)
+            blk = modsym.referent
+            tmod = add_symbol(m, ".L_1008", blk)
+            a = Assembler(m, temp_symbol_suffix=suffix)
+            br.cases += 1
+            desc = {"module symbol": ".L_1008", "temp_symbol_suffix": suffix, "patch": ["jmp .L_1008", "movq .L_1008(%rip), %rax"]}
+            try:
+                a.assemble("jmp .L_1008\nmovq .L_1008(%rip), %rax", syntax)
+                res = a.finalize()
+                exprs = list(res.text_section.symbolic_expressions.values())
+                if len(exprs) != 2 or not all(e.symbol is tmod for e in exprs) or any(s_.name.startswith(".L_1008") for s_ in res.symbols):
+                    br.failures.append({"clause": "C13/existing-name-binds-to-the-module-symbol-object", "witness": desc,
+                                        "detail": "expressions bind to %s; new symbols %s" % ([("module object" if e.symbol is tmod else e.symbol.name) for e in exprs], [s_.name for s_ in res.symbols])})
+            except Exception as e:
+                br.failures.append({"clause": "C13/existing-name-binds-to-the-module-symbol-object", "witness": desc, "detail": "%s: %s" % (type(e).__name__, str(e)[:100])})
+        br.nontrivial = len(distinct) + 8
         br.samples = [{"patch": patch.splitlines()}]
         return br
     return run
